@@ -20,6 +20,10 @@ import operator
 from harness.pyenv import repo_import
 
 NONE = "None"
+# instantiations whose set operations are also run with the operand form "dups": a plain list / tuple that repeats
+# elements ([a, b, a, b]); the model operand stays the SET of its elements.  checks/c33.py narrows it in the quick tier.
+DUP_FORM_INSTS = {"ints", "tuples", "lists"}
+_NO_DUPS = {"symmetric_difference", "eq", "ne", "ixor"}     # need other.difference / compare len(): see assumptions
 _EXC = {"KeyError": KeyError, "IndexError": IndexError}
 
 
@@ -194,7 +198,7 @@ class SetBinding:
             op, T = act["arg"]
             if op in _ZERO_OPS:
                 return ["call"]
-            fs = [f for f in forms if not (f == "list" and op == "symmetric_difference")]
+            fs = [f for f in forms if not (f == "list" and op == "symmetric_difference")] + self._dups(op, T)
             out = ["m:" + f for f in fs] + ["o:" + f for f in fs]      # method call / operator
             if sorted(T) == self.cur:
                 out += ["m:alias", "o:alias"]                           # s.union(s), s | s, ...
@@ -202,9 +206,9 @@ class SetBinding:
         if name in ("new", "update") or name in _BINARY:
             if name == "symmetric_difference":
                 return [f for f in forms if f != "list"]      # needs other.difference: not offered for plain lists
-            return forms
+            return forms + self._dups(name, act["arg"])
         if name in _IOPS:
-            fs = [f for f in forms if not (f == "list" and name == "ixor")]
+            fs = [f for f in forms if not (f == "list" and name == "ixor")] + self._dups(name, act["arg"])
             if sorted(act["arg"]) == self.cur:
                 fs = fs + ["alias"]                           # s |= s, s -= s, ...
             return fs
@@ -218,12 +222,12 @@ class SetBinding:
         if hit is not None:
             o, snap = hit
             try:
-                if (list(o) if form in ("sortedset", "list") else sorted(o)) == snap:
+                if (list(o) if form in ("sortedset", "list", "dups") else sorted(o)) == snap:
                     return o
             except Exception:
                 pass
         o = self.operand(T, form)
-        self._ocache[key] = (o, list(o) if form in ("sortedset", "list") else sorted(o))
+        self._ocache[key] = (o, list(o) if form in ("sortedset", "list", "dups") else sorted(o))
         return o
 
     def operand(self, T, form, dup=False):
@@ -235,9 +239,22 @@ class SetBinding:
             return set(items)
         if form == "frozenset":
             return frozenset(items)
+        if form == "dups":
+            # a non-set iterable with repeated elements, read as the set of its elements
+            items += [c(e) for e in _scramble(T)[:2]]
+            return tuple(items) if self.inst.name == "ints" else items
         if dup and items:
             items.append(c(_scramble(T)[0]))
         return items
+
+    def _want(self, T, form):
+        """Model-space contents the operand object must still have after the call."""
+        if form == "dups":
+            return sorted(list(T) + _scramble(T)[:2])
+        return sorted(T)
+
+    def _dups(self, name, T):
+        return ["dups"] if (len(T) and name not in _NO_DUPS and self.inst.name in DUP_FORM_INSTS) else []
 
     # -- normalisation into model space
     def nseq(self, r):
@@ -384,7 +401,7 @@ class SetBinding:
                 if alias:
                     out.append(("s != s", lambda: s != s))
             # the operand must come back unchanged
-            self._operand_check = (o, sorted(T))
+            self._operand_check = (o, self._want(T, form))
             return out
         if name == "contains":
             return [("e in s", lambda: c(arg) in s), ("s.__contains__(e)", lambda: s.__contains__(c(arg)))]
@@ -422,7 +439,7 @@ class SetBinding:
             return s.clear()
         if name == "update":
             o = self.operand(arg, form, dup=True)
-            self._operand_check = (o, sorted(arg)) if form != "list" else None
+            self._operand_check = (o, self._want(arg, form)) if form != "list" else None
             return s.update(o)
         if name in _IOPS:
             f = form
@@ -433,7 +450,7 @@ class SetBinding:
                 self._operand_check = None
             else:
                 o = self.operand(arg, f)
-                self._operand_check = (o, sorted(arg))
+                self._operand_check = (o, self._want(arg, f))
             self.obj = _IOPS[name](s, o)
             return None
         if name == "derive":
@@ -447,7 +464,7 @@ class SetBinding:
                     self._operand_check = None
                 else:
                     o = self.operand(T, f)
-                    self._operand_check = (o, sorted(T))
+                    self._operand_check = (o, self._want(T, f))
                 r = getattr(s, op)(o) if how == "m" else _OPERATORS[op](s, o)
             self.robj = r
             return r
